@@ -3,26 +3,30 @@
 // by index arithmetic on the underlying storage, and an element-identification function.  laws.hpp enumerates every
 // (n, law, a, b | d) inside the bounds and judges each against index arithmetic.
 //
-// The translation unit is compiled once per group (-DC12_GROUP=1..6) so that the groups build in parallel:
+// The translation unit is compiled once per group (-DC12_GROUP=1..7) so that the groups build in parallel:
 //   1 = xbitset_iterator over xdynamic_bitset<uint8_t>, 5 = other block types and xdynamic_bitset_view,
 //   2 = xoptional_iterator kinds, 3 = xcomplex_iterator kinds, 4 = xstepping_iterator,
-//   6 = xkey_iterator / xvalue_iterator / direct users of the base classes (toys)
+//   6 = xkey_iterator / xvalue_iterator / direct users of the base classes (toys),
+//   7 = xoptional_iterator with uint8_t flag blocks, xcomplex_iterator over xcomplex_vector<float, true>
 #include "laws.hpp"
 
 #ifndef C12_GROUP
-#error "compile with -DC12_GROUP=1..6"
+#error "compile with -DC12_GROUP=1..7"
 #endif
 
 #include <xtl/xiterator_base.hpp>
 #if C12_GROUP == 1 || C12_GROUP == 5
 #include <xtl/xdynamic_bitset.hpp>
-#elif C12_GROUP == 2
+#endif
+#if C12_GROUP == 2 || C12_GROUP == 7
 #include <xtl/xoptional_sequence.hpp>
-#elif C12_GROUP == 3
+#endif
+#if C12_GROUP == 3 || C12_GROUP == 7
 #include <xtl/xcomplex_sequence.hpp>
 #endif
 
 #include <cstdlib>
+#include <deque>
 #include <iterator>
 #include <map>
 #include <string>
@@ -109,13 +113,14 @@ struct bitset_world
 #endif
 
 // =====================================================================================================================
-#if C12_GROUP == 2
-// xoptional_iterator over xoptional_vector<int> (flags: xdynamic_bitset<std::size_t>, the library default).
+#if C12_GROUP == 2 || C12_GROUP == 7
+// xoptional_iterator over xoptional_vector<int> (flags: xdynamic_bitset<std::size_t>, the library default; group 7: uint8_t
+// flag blocks, so that flag-block boundaries are crossed at small sizes).
 // MODE: 0 iterator, 1 const_iterator, 2 reverse_iterator, 3 const_reverse_iterator
-template <int MODE>
+template <int MODE, class FlagBlk = std::size_t>
 struct optional_world
 {
-    using ov_type = xtl::xoptional_vector<int>;
+    using ov_type = xtl::xoptional_vector<int, std::allocator<int>, xtl::xdynamic_bitset<FlagBlk>>;
     using vc_type = typename ov_type::base_container_type;
     using fc_type = typename ov_type::flag_container_type;
     using flag_block = typename fc_type::block_type;
@@ -130,7 +135,7 @@ struct optional_world
     static std::string kind()
     {
         static const char* m[] = {"iterator", "const_iterator", "reverse_iterator", "const_reverse_iterator"};
-        return std::string("optional_vector.") + m[MODE];
+        return std::string(sizeof(FlagBlk) == 1 ? "optional_vector_u8flags." : "optional_vector.") + m[MODE];
     }
 
     int n;
@@ -200,12 +205,12 @@ struct optional_world
 #endif
 
 // =====================================================================================================================
-#if C12_GROUP == 3
-// xcomplex_iterator over xcomplex_vector<double>.  MODE as above.
-template <int MODE>
+#if C12_GROUP == 3 || C12_GROUP == 7
+// xcomplex_iterator over xcomplex_vector<double> (group 7: xcomplex_vector<float, true>).  MODE as above.
+template <int MODE, class T = double, bool IEEE = false>
 struct complex_world
 {
-    using cv_type = xtl::xcomplex_vector<double>;
+    using cv_type = xtl::xcomplex_vector<T, IEEE>;
     using c_type = typename cv_type::container_type;
     using iterator = std::conditional_t<MODE == 0, typename cv_type::iterator,
                      std::conditional_t<MODE == 1, typename cv_type::const_iterator,
@@ -218,7 +223,7 @@ struct complex_world
     static std::string kind()
     {
         static const char* m[] = {"iterator", "const_iterator", "reverse_iterator", "const_reverse_iterator"};
-        return std::string("complex_vector.") + m[MODE];
+        return std::string(IEEE ? "complex_vector_float_ieee." : "complex_vector.") + m[MODE];
     }
 
     int n;
@@ -226,7 +231,7 @@ struct complex_world
 
     explicit complex_world(int n_) : n(n_), cv(std::size_t(n_))
     {
-        for (int q = 0; q < n; ++q) { cv.real()[std::size_t(q)] = 100 + q; cv.imag()[std::size_t(q)] = 200 + q; }
+        for (int q = 0; q < n; ++q) { cv.real()[std::size_t(q)] = T(100 + q); cv.imag()[std::size_t(q)] = T(200 + q); }
     }
     complex_world(const complex_world&) = delete;
     int size() const { return n; }
@@ -261,8 +266,8 @@ struct complex_world
     {
         if (n == 0) return -1;
         auto r = f();
-        int ur = index_in<double>(cv.real().data(), n, &r.real());
-        int ui = index_in<double>(cv.imag().data(), n, &r.imag());
+        int ur = index_in<T>(cv.real().data(), n, &r.real());
+        int ui = index_in<T>(cv.imag().data(), n, &r.imag());
         if (ur < 0 || ui < 0) return -7;
         if (ur != ui) return -8;
         return reversed ? n - 1 - ur : ur;
@@ -274,17 +279,34 @@ struct complex_world
 #if C12_GROUP == 4
 // ---- xstepping_iterator<It> with a positive step S over a vector<int> of n*S elements -----------------------------
 template <class It> struct base_it;
-template <> struct base_it<std::vector<int>::iterator>
+struct vec_base
+{
+    using container = std::vector<int>;
+    static int index_of(container& v, const int* p) { return index_in<int>(v.data(), int(v.size()), p); }
+};
+template <> struct base_it<std::deque<int>::iterator>
+{
+    using container = std::deque<int>;
+    static const char* name() { return "deque_iterator"; }
+    static std::deque<int>::iterator at(container& v, int i) { return v.begin() + i; }
+    static int index_of(container& v, const int* p)
+    {
+        for (std::size_t q = 0; q < v.size(); ++q)
+            if (&v[q] == p) return int(q);
+        return -1;
+    }
+};
+template <> struct base_it<std::vector<int>::iterator> : vec_base
 {
     static const char* name() { return "vec_iterator"; }
     static std::vector<int>::iterator at(std::vector<int>& v, int i) { return v.begin() + i; }
 };
-template <> struct base_it<std::vector<int>::const_iterator>
+template <> struct base_it<std::vector<int>::const_iterator> : vec_base
 {
     static const char* name() { return "vec_const_iterator"; }
     static std::vector<int>::const_iterator at(std::vector<int>& v, int i) { return v.cbegin() + i; }
 };
-template <> struct base_it<int*>
+template <> struct base_it<int*> : vec_base
 {
     static const char* name() { return "pointer"; }
     static int* at(std::vector<int>& v, int i) { return v.data() + i; }
@@ -301,7 +323,7 @@ struct stepping_world
     static std::string kind() { return std::string("stepping.") + base_it<It>::name() + ".step" + vf::str(S); }
 
     int n;
-    std::vector<int> v;
+    typename base_it<It>::container v;
 
     explicit stepping_world(int n_) : n(n_), v(std::size_t(n_) * S)
     {
@@ -319,7 +341,7 @@ struct stepping_world
     {
         if (n == 0) return -1;
         const int& r = f();
-        int u = index_in<int>(v.data(), int(v.size()), &r);
+        int u = base_it<It>::index_of(v, &r);
         if (u < 0) return -7;
         if (u % S != 0) return -9;  // an element between two steps
         return u / S;
@@ -557,6 +579,15 @@ static void register_all()
     register_kind<stepping_world<int*, 3>>();
     register_kind<stepping_world<int*, 4>>();
     register_kind<stepping_world<int*, 7>>();
+    register_kind<stepping_world<std::deque<int>::iterator, 1>>();
+    register_kind<stepping_world<std::deque<int>::iterator, 3>>();
+#elif C12_GROUP == 7
+    register_kind<optional_world<0, std::uint8_t>>();
+    register_kind<optional_world<1, std::uint8_t>>();
+    register_kind<optional_world<2, std::uint8_t>>();
+    register_kind<optional_world<3, std::uint8_t>>();
+    register_kind<complex_world<0, float, true>>();
+    register_kind<complex_world<3, float, true>>();
 #elif C12_GROUP == 6
     register_kind<key_world<false>>();
     register_kind<key_world<true>>();
